@@ -11,6 +11,29 @@ TLA_CP = "/opt/veriftools/tla/tla2tools.jar:/opt/veriftools/tla/CommunityModules
 NCPU = os.cpu_count() or 4
 
 
+def mem_total_gb():
+    try:
+        for line in open("/proc/meminfo"):
+            if line.startswith("MemTotal:"):
+                return int(line.split()[1]) / (1024.0 * 1024.0)
+    except Exception:
+        pass
+    return 16.0
+
+
+MEM_GB = mem_total_gb()
+# one JVM per validated trace: bounded heap, and never more JVMs at once than half of the memory allows
+def tv_heap_gb(tier):
+    return 6 if tier == "thorough" else 4
+
+
+def tv_par(tier):
+    return max(2, min(NCPU, int(MEM_GB * 0.6 / tv_heap_gb(tier))))
+
+
+MC_HEAP_GB = max(4, min(16, int(MEM_GB * 0.3)))
+
+
 class Infra(Exception):
     pass
 
@@ -95,8 +118,27 @@ class Ctx:
         self.drv = out
         return out
 
-    def run_drv(self, args, timeout=1800, env_extra=None, check=True):
-        drv = self.build_drv()
+    def build_drv_race(self):
+        """the same drivers built with the Go race detector (monitor for the data-race clauses)"""
+        if getattr(self, "drv_race", None):
+            return self.drv_race
+        self.build_drv()     # go.sum / alt.mod in place
+        t0 = time.time()
+        modargs = []
+        alt = os.path.join(self.work, "alt.mod")
+        if os.path.exists(alt):
+            modargs = ["-modfile=" + alt]
+        out = os.path.join(self.work, "drvrace")
+        p = subprocess.run(["go", "build", "-race"] + modargs + ["-tags", "verif", "-o", out, "./cmd/drv"], cwd=HARNESS,
+                           env=go_env(), stdout=subprocess.PIPE, stderr=subprocess.STDOUT, text=True)
+        if p.returncode != 0:
+            raise Infra("harness does not build with -race:\n" + p.stdout[-4000:])
+        self.note("built drv -race in %.1fs" % (time.time() - t0))
+        self.drv_race = out
+        return out
+
+    def run_drv(self, args, timeout=1800, env_extra=None, check=True, race=False):
+        drv = self.build_drv_race() if race else self.build_drv()
         e = go_env()
         e["VERIF_SEED"] = str(self.seed)
         e["VERIF_TIER"] = self.tier
@@ -121,7 +163,7 @@ class Ctx:
         cfg = os.path.join(self.work, tag + ".cfg")
         with open(cfg, "w") as f:
             f.write(cfg_text)
-        cmd = ["java", "-Xss1g", "-XX:+UseParallelGC"]
+        cmd = ["java", "-Xss1g", "-XX:+UseParallelGC", "-Xmx%dg" % (tv_heap_gb(self.tier) if workers == 1 else MC_HEAP_GB)]
         if deque:
             cmd.append("-Dtlc2.tool.queue.IStateQueue=StateDeque")
         cmd += ["-cp", TLA_CP, "tlc2.TLC", "-noGenerateSpecTE", "-metadir", md,
